@@ -46,10 +46,15 @@ def conn_cases(rng, tier):
     from p_c07 import gen_pipeline, svc_tok, expected_trace
     cs = []
     for proto in ("tcp", "rtu"):
-        for _ in range(8 if tier == "quick" else 80):
+        for it in range(10 if tier == "quick" else 80):
             k = rng.choice([2, 3, 4])
-            frames, hdrs, reqs, svc = gen_pipeline(rng, proto, k)
-            stream = b"".join(frames)
+            for _try in range(200):
+                frames, hdrs, reqs, svc = gen_pipeline(rng, proto, k)
+                stream = b"".join(frames)
+                # every other pipeline carries a variable-length request (write multiple coils / registers, read-write multiple): their
+                # length is known only once the byte count has arrived, so the cut positions inside their head matter
+                if len(stream) <= 100 and (it % 2 == 1 or any(r[0] in ("WMR", "WMC", "RWMR") for r in reqs)):
+                    break
             if len(stream) > 100:
                 continue
             exp = expected_trace(proto, hdrs, reqs, svc)
